@@ -692,6 +692,7 @@ type expItem struct {
 	c       int
 	present bool
 	block   bool
+	node    int // index of the link-tree node
 }
 
 func newOracle(out *reg.Out, w *World) *oracle {
@@ -746,15 +747,33 @@ func (o *oracle) responderStream(skip int) []expItem {
 	for i := 0; i < len(lt); {
 		b := lt[i].Block
 		if o.rem[b] {
-			out = append(out, expItem{b, true, len(out)+1 > skip && !seen[b]})
+			out = append(out, expItem{b, true, len(out)+1 > skip && !seen[b], i})
 			seen[b] = true
 			i++
 		} else {
-			out = append(out, expItem{b, false, false})
+			out = append(out, expItem{b, false, false, i})
 			i = o.skipSubtree(i)
 		}
 	}
 	return out
+}
+
+// windowOverrun: among the first `skip` links of the responder's own traversal there is one that
+// lies beyond the prefix the requestor loaded locally (possible only if the responder lacks a block
+// of that prefix and therefore skipped part of it).  Decided from the case alone.
+func (o *oracle) windowOverrun() bool {
+	if o.prefix >= len(o.w.LT.Loads) {
+		return false
+	}
+	for i, e := range o.responderStream(o.prefix) {
+		if i >= o.prefix {
+			break
+		}
+		if e.node >= o.prefix {
+			return true
+		}
+	}
+	return false
 }
 
 func (o *oracle) request(user int64) {
@@ -964,7 +983,9 @@ func (o *oracle) finish(s *Sys) {
 	// known-finding input classes, decided from the case alone (not from what went wrong):
 	//   root-not-found-abort : the responder lacks the root block, which the requestor holds
 	//   skip-prefix-mismatch : the responder holds the root but lacks another block of the prefix
-	//                          the requestor loaded locally before it went to the network
+	//                          the requestor loaded locally before it went to the network, and
+	//                          therefore the first `skip` links of ITS traversal reach beyond
+	//                          that prefix (windowOverrun)
 	cls := func(c string) string {
 		if covered || o.prefix == 0 {
 			return c
@@ -972,7 +993,7 @@ func (o *oracle) finish(s *Sys) {
 		if !o.rem[w.LT.Loads[0].Block] {
 			return "root-not-found-abort"
 		}
-		if lacksPref {
+		if lacksPref && o.windowOverrun() {
 			return "skip-prefix-mismatch"
 		}
 		return c
